@@ -17,6 +17,12 @@ direct includes.  Macro expansion is lazy, hence the value of f<id>() depends on
 exactly the transitive include set of the TU.  `main` prints one line per TU, so
 a stale object is visible (and identifiable) in the program output.
 
+Optionally the executable's TUs use a precompiled header: state['pch'] =
+{'file': 'pre.h', 'form': 'object'|'string', 'base': int, 'inc': [[hid, coef], ...]} and
+each using TU has 'pch': coef.  The PCH header defines H_P like any header; the TUs do
+NOT #include it (it arrives through the compiler's -include), and at least one header is
+reachable only through it.
+
 An *op* is plain JSON as well (see `apply`); applying it is deterministic, so a
 replay needs no random numbers.
 """
@@ -61,9 +67,45 @@ def closure_of(st, incs):
     return sorted(seen, key=int)
 
 
-def tu_closure_files(st, tid):
+def pch_files(st):
+    """The PCH header and every header it pulls in."""
+    p = st.get('pch')
+    if not p:
+        return []
+    return [p['file']] + [hdr_path(st, h) for h in closure_of(st, p['inc'])]
+
+
+def pch_users(st):
+    if not st.get('pch'):
+        return []
+    return [tid for tid in sorted(st['tus'], key=int) if st['tus'][tid].get('pch')]
+
+
+def own_closure_files(st, tid):
+    """What a TU reaches without the precompiled header."""
     t = st['tus'][tid]
     return [t['file']] + [hdr_path(st, h) for h in closure_of(st, t['inc'])]
+
+
+def tu_closure_files(st, tid):
+    out = own_closure_files(st, tid)
+    if st.get('pch') and st['tus'][tid].get('pch'):
+        out += [f for f in pch_files(st) if f not in out]
+    return out
+
+
+def only_through_pch(st):
+    """Header ids that some PCH user sees, and sees only through the PCH."""
+    p = st.get('pch')
+    if not p:
+        return []
+    users = pch_users(st)
+    out = []
+    for h in closure_of(st, p['inc']):
+        f = hdr_path(st, h)
+        if users and all(f not in own_closure_files(st, t) for t in users):
+            out.append(h)
+    return out
 
 
 def depth(st, hid, _memo=None):
@@ -86,7 +128,10 @@ def height_above(st, hid):
 def includers(st, hid):
     hs = [k for k, h in st['headers'].items() if any(d == hid for d, c in h['inc'])]
     ts = [k for k, t in st['tus'].items() if any(d == hid for d, c in t['inc'])]
-    return sorted(hs, key=int), sorted(ts, key=int)
+    ts = sorted(ts, key=int)
+    if st.get('pch') and any(d == hid for d, c in st['pch']['inc']):
+        ts.append('pch')
+    return sorted(hs, key=int), ts
 
 
 def reaches(st, a, b):
@@ -102,10 +147,19 @@ def hvalue(st, hid, memo=None):
     return memo[hid]
 
 
+def pvalue(st, memo=None):
+    p = st['pch']
+    memo = {} if memo is None else memo
+    return (p['base'] + sum(c * hvalue(st, d, memo) for d, c in p['inc'])) % M32
+
+
 def tvalue(st, tid):
     t = st['tus'][tid]
     memo = {}
-    return (t['base'] + sum(c * hvalue(st, d, memo) for d, c in t['inc'])) % M32
+    v = t['base'] + sum(c * hvalue(st, d, memo) for d, c in t['inc'])
+    if st.get('pch') and t.get('pch'):
+        v += t['pch'] * pvalue(st, memo)
+    return v % M32
 
 
 def expected_lines(st):
@@ -133,6 +187,16 @@ def render_header(st, hid):
     return '\n'.join(L) + '\n'
 
 
+def render_pch(st):
+    p = st['pch']
+    L = ['/* precompiled header */', '#ifndef G_P', '#define G_P']
+    for d, c in p['inc']:
+        L.append('#include "%s"' % st['headers'][d]['name'])
+    L.append('#define H_P (%s)' % _expr(p['base'], p['inc']))
+    L.append('#endif')
+    return '\n'.join(L) + '\n'
+
+
 def render_tu(st, tid):
     t = st['tus'][tid]
     L = ['/* translation unit %s */' % tid]
@@ -140,7 +204,10 @@ def render_tu(st, tid):
         L.append('#include <stdio.h>')
     for d, c in t['inc']:
         L.append('#include "%s"' % st['headers'][d]['name'])
-    L.append('unsigned f%s(void) { return %s; }' % (tid, _expr(t['base'], t['inc'])))
+    terms = list(t['inc'])
+    if st.get('pch') and t.get('pch'):
+        terms.append(['P', t['pch']])       # H_P arrives through the compiler's -include
+    L.append('unsigned f%s(void) { return %s; }' % (tid, _expr(t['base'], terms)))
     if tid == '0':
         others = [k for k in sorted(st['tus'], key=int) if k != '0']
         for k in others:
@@ -184,14 +251,22 @@ def render_bfg(st):
     libt = [t for t in tids if st['tus'][t].get('lib') and t != '0']
     exet = [t for t in tids if t not in libt]
     extra = (', ' + kw) if kw else ''
+    exe_extra = extra
+    if st.get('pch'):
+        if st['pch']['form'] == 'object':
+            L.append('pch = precompiled_header(file=%r%s)' % (
+                st['pch']['file'], extra.replace('compile_options=', 'options=')))
+            exe_extra = extra + ', pch=pch'
+        else:
+            exe_extra = extra + ', pch=%r' % st['pch']['file']
     if libt:
         L.append("core = static_library('core', files=[%s]%s)" % (
             ', '.join(repr(st['tus'][t]['file']) for t in libt), extra))
         L.append("prog = executable('prog', files=[%s], libs=[core]%s)" % (
-            ', '.join(repr(st['tus'][t]['file']) for t in exet), extra))
+            ', '.join(repr(st['tus'][t]['file']) for t in exet), exe_extra))
     else:
         L.append("prog = executable('prog', files=[%s]%s)" % (
-            ', '.join(repr(st['tus'][t]['file']) for t in exet), extra))
+            ', '.join(repr(st['tus'][t]['file']) for t in exet), exe_extra))
     L.append('default(prog)')
     return '\n'.join(L) + '\n'
 
@@ -204,13 +279,15 @@ def render(st):
         files[hdr_path(st, hid)] = render_header(st, hid)
     for tid in st['tus']:
         files[st['tus'][tid]['file']] = render_tu(st, tid)
+    if st.get('pch'):
+        files[st['pch']['file']] = render_pch(st)
     return files
 
 
 # --------------------------------------------------------------------------
 # edits
 
-KINDS = ['mod_header', 'mod_source', 'add_header', 'uninclude', 'rm_header', 'del_header',
+KINDS = ['mod_pch', 'mod_header', 'mod_source', 'add_header', 'uninclude', 'rm_header', 'del_header',
          'rename_header', 'move_header', 'noop', 'clean', 'add_source', 'rename_source',
          'del_source']
 
@@ -227,6 +304,11 @@ def apply(st, op):
             raise ValueError('no change')
         H[op['h']]['base'] = op['base']
         info['edited'] = hdr_path(st, op['h'])
+    elif k == 'mod_pch':
+        if not st.get('pch') or st['pch']['base'] == op['base']:
+            raise ValueError('no change')
+        st['pch']['base'] = op['base']
+        info['edited'] = st['pch']['file']
     elif k == 'mod_source':
         if T[op['t']]['base'] == op['base']:
             raise ValueError('no change')
@@ -238,11 +320,14 @@ def apply(st, op):
         H[op['h']] = {'name': op['name'], 'plain': op['plain'], 'dir': op['dir'],
                       'base': op['base'], 'inc': [list(x) for x in op['inc']]}
         kind, tgt = op['into']
-        (H if kind == 'h' else T)[tgt]['inc'].append([op['h'], op['coef']])
+        if kind == 'p':
+            st['pch']['inc'].append([op['h'], op['coef']])
+        else:
+            (H if kind == 'h' else T)[tgt]['inc'].append([op['h'], op['coef']])
         info['edited'] = hdr_path(st, op['h'])
     elif k in ('uninclude', 'del_header'):
         hid = op['h']
-        for x in list(H.values()) + list(T.values()):
+        for x in list(H.values()) + list(T.values()) + ([st['pch']] if st.get('pch') else []):
             x['inc'] = [[d, c] for d, c in x['inc'] if d != hid]
         info['edited'] = hdr_path(st, hid)
         if k == 'del_header':
@@ -277,6 +362,8 @@ def apply(st, op):
             raise ValueError('exists')
         T[op['t']] = {'file': op['file'], 'base': op['base'],
                       'inc': [list(x) for x in op['inc']], 'lib': bool(op.get('lib'))}
+        if op.get('pch') and st.get('pch') and not op.get('lib'):
+            T[op['t']]['pch'] = op['pch']
         info['edited'] = op['file']
     elif k == 'rename_source':
         old = T[op['t']]['file']
@@ -320,8 +407,11 @@ def file_ops(before, after, renames):
 def must_recompile(st_after, written):
     """TUs of the new state that include (transitively) or are a file with new content."""
     w = set(written)
-    return [tid for tid in sorted(st_after['tus'], key=int)
-            if w & set(tu_closure_files(st_after, tid))]
+    out = [tid for tid in sorted(st_after['tus'], key=int)
+           if w & set(tu_closure_files(st_after, tid))]
+    if w & set(pch_files(st_after)):
+        out.append('pch')       # the precompiled header itself
+    return out
 
 
 # --------------------------------------------------------------------------
@@ -402,6 +492,58 @@ def gen_state(rng, lang, p_special, special_incdir):
     return st
 
 
+def add_pch(rng, st, form, p_special):
+    """Give the executable's TUs a precompiled header whose includes are one or two new
+    headers nobody else includes (reachable only through the PCH) plus maybe a shared one.
+    form 'string': pch='pre.h' on a single-source executable (the other TUs move into the
+    static library); form 'object': one precompiled_header() object for >= 2 TUs."""
+    T, H = st['tus'], st['headers']
+    tids = sorted(T, key=int)
+    if form == 'string':
+        for t in tids[1:]:
+            T[t]['lib'] = True
+    else:
+        T[tids[1]]['lib'] = False
+    nxt = max(int(h) for h in H) + 1
+    inner = []
+    for k in range(rng.choice([1, 2, 2])):
+        hid = str(nxt + k)
+        name, plain = gen_name(rng, 'h' + hid, p_special)
+        H[hid] = {'name': name, 'plain': plain, 'dir': rng.randrange(len(st['incdirs'])),
+                  'base': rng.randint(1, 999), 'inc': []}
+        inner.append(hid)
+    if len(inner) == 2 and rng.random() < 0.6:
+        H[inner[0]]['inc'].append([inner[1], rng.randint(1, 9)])     # a chain behind the PCH
+        pinc = [[inner[0], rng.randint(1, 9)]]
+    else:
+        pinc = [[h, rng.randint(1, 9)] for h in inner]
+    shared = [h for h in H if h not in inner and depth(st, h) <= 3]
+    if shared and rng.random() < 0.6:
+        pinc.append([rng.choice(sorted(shared, key=int)), rng.randint(1, 9)])
+    # bfg9000 takes the language of a PCH from its suffix
+    st['pch'] = {'file': 'pre.hpp' if _cxx(st) else 'pre.h', 'form': form, 'base': rng.randint(1, 999), 'inc': pinc}
+    for t in tids:
+        if not T[t]['lib']:
+            T[t]['pch'] = rng.randint(1, 9)
+    return st
+
+
+def strip_pch(st, hist):
+    """The same case without the precompiled header (when the tool chain cannot do it)."""
+    st = copy.deepcopy(st)
+    st['pch'] = None
+    for t in st['tus'].values():
+        t.pop('pch', None)
+    out = []
+    for op in hist:
+        if op['op'] == 'mod_pch' or (op['op'] == 'add_header' and op['into'][0] == 'p'):
+            continue
+        op = dict(op)
+        op.pop('pch', None)
+        out.append(op)
+    return st, out
+
+
 def _new_base(rng, old):
     while True:
         b = rng.randint(1, 999)
@@ -422,6 +564,16 @@ def gen_op(rng, st, kind, counters, p_special, allow_regen):
         trans = [h for h in cands if includers(st, h)[0]]
         h = rng.choice(trans if trans and rng.random() < 0.7 else cands)
         return {'op': kind, 'h': h, 'base': _new_base(rng, H[h]['base'])}
+    if kind == 'mod_pch':
+        if not st.get('pch'):
+            return None
+        return {'op': kind, 'base': _new_base(rng, st['pch']['base'])}
+    if kind == 'mod_pch_inner':
+        cands = only_through_pch(st)
+        if not cands:
+            return None
+        h = rng.choice(cands)
+        return {'op': 'mod_header', 'h': h, 'base': _new_base(rng, H[h]['base'])}
     if kind == 'mod_source':
         t = rng.choice(sorted(T, key=int))
         return {'op': kind, 't': t, 'base': _new_base(rng, T[t]['base'])}
@@ -432,7 +584,10 @@ def gen_op(rng, st, kind, counters, p_special, allow_regen):
         # includer: a TU, or a header; the include DAG must stay acyclic and <= 4 deep
         tids = sorted(T, key=int)
         for attempt in range(6):
-            if hids and rng.random() < 0.55 and attempt < 4:
+            if st.get('pch') and attempt == 0 and rng.random() < 0.25:
+                into = ['p', None]
+                cands = list(hids)
+            elif hids and rng.random() < 0.55 and attempt < 4:
                 into = ['h', rng.choice(hids)]
                 cands = [h for h in hids if not reaches(st, h, into[1])]
             else:
@@ -453,9 +608,10 @@ def gen_op(rng, st, kind, counters, p_special, allow_regen):
                 'dir': rng.randrange(len(st['incdirs'])), 'base': rng.randint(1, 999),
                 'inc': inc, 'into': into, 'coef': rng.randint(1, 9)}
     if kind in ('uninclude', 'del_header'):
-        if len(live) <= 1:
+        cands = [h for h in live if h not in only_through_pch(st)]
+        if len(live) <= 1 or not cands:
             return None
-        return {'op': kind, 'h': rng.choice(live)}
+        return {'op': kind, 'h': rng.choice(cands)}
     if kind == 'rm_header':
         orphans = [h for h in hids if not any(includers(st, h))]
         if not orphans:
@@ -488,9 +644,15 @@ def gen_op(rng, st, kind, counters, p_special, allow_regen):
         tid = str(counters['t'])
         inc = [[h, rng.randint(1, 9)] for h in rng.sample(hids, min(len(hids), rng.randint(0, 2)))
                if depth(st, h) <= 4]
-        return {'op': kind, 't': tid, 'file': 'tu%s%s' % (tid, src_ext(st)),
-                'base': rng.randint(1, 999), 'inc': inc,
-                'lib': bool(any(t.get('lib') for t in T.values()) and rng.random() < 0.5)}
+        op = {'op': kind, 't': tid, 'file': 'tu%s%s' % (tid, src_ext(st)),
+              'base': rng.randint(1, 999), 'inc': inc,
+              'lib': bool(any(t.get('lib') for t in T.values()) and rng.random() < 0.5)}
+        if st.get('pch'):
+            if st['pch']['form'] == 'string':
+                op['lib'] = True        # pch='file' wants a single-source executable
+            elif not op['lib']:
+                op['pch'] = rng.randint(1, 9)
+        return op
     if kind == 'rename_source':
         cands = [t for t in sorted(T, key=int)]
         t = rng.choice(cands)
@@ -504,13 +666,17 @@ def gen_op(rng, st, kind, counters, p_special, allow_regen):
         libs = [t for t in cands if T[t].get('lib')]
         # keep at least one member in the library and two TUs over all
         cands = [t for t in cands if not (T[t].get('lib') and len(libs) == 1)]
+        if st.get('pch') and st['pch']['form'] == 'object':
+            users = [t for t in cands if T[t].get('pch')]
+            if len(pch_users(st)) <= 2:
+                cands = [t for t in cands if t not in users]
         if len(T) <= 2 or not cands:
             return None
         return {'op': kind, 't': rng.choice(cands)}
     raise ValueError(kind)
 
 
-WEIGHTS = [('mod_header', 5), ('mod_source', 2), ('add_header', 4), ('del_header', 3),
+WEIGHTS = [('mod_pch', 2), ('mod_pch_inner', 2), ('mod_header', 5), ('mod_source', 2), ('add_header', 4), ('del_header', 3),
            ('uninclude', 2), ('rm_header', 1), ('rename_header', 4), ('move_header', 3),
            ('noop', 3), ('clean', 1), ('add_source', 1), ('rename_source', 1),
            ('del_source', 1)]
@@ -522,6 +688,8 @@ def gen_history(rng, st, n, p_special, allow_regen=True):
     # every history holds these; the rest is weighted
     plan = ['mod_header', 'noop', 'add_header', rng.choice(['del_header', 'uninclude']),
             'rename_header', 'mod_header']
+    if st.get('pch'):
+        plan = ['mod_pch', 'mod_pch_inner'] + plan[:-1]
     kinds = [k for k, w in WEIGHTS for _ in range(w)]
     while len(plan) < n - 1:
         plan.append(rng.choice(kinds))
@@ -551,11 +719,14 @@ def gen_history(rng, st, n, p_special, allow_regen=True):
             continue
         cur = cur2
         hist.append(op)
+        if kind in ('mod_pch', 'mod_pch_inner') and rng.random() < 0.5:
+            hist.append({'op': 'noop'})
         if op['op'] == 'uninclude':
             pending_rm = op['h']
         if op['op'] in ('rm_header', 'del_header') and op['h'] == pending_rm:
             pending_rm = None
-    if pending_rm is not None and pending_rm in cur['headers']:
+    if pending_rm is not None and pending_rm in cur['headers'] and \
+       not any(includers(cur, pending_rm)):
         hist.append({'op': 'rm_header', 'h': pending_rm})
     hist.append({'op': 'clean'})
     return hist
